@@ -1,6 +1,7 @@
 import PonyVerif.Drive.Util
 import PonyVerif.Model.PyPrint
 import PonyVerif.Model.PreTrans
+import PonyVerif.Gen.C04Src
 /-
   line-protocol entry for the C04 model.
   request  {"op":"print", "e": <expr>}  → {"src": text the model prints, "parse": <expr>|null (reference parser on the
@@ -224,7 +225,7 @@ def handle (j : Json) : Except String Json := do
   | "classify" =>
       let t ← nodeOf (← j.getObjVal? "t")
       let ctx ← (← argArr j "ctx").mapM asStr
-      let r := PonyVerif.Model.PreTrans.externals ctx t
+      let r := PonyVerif.Model.PreTrans.externals PonyVerif.Gen.C04Src.starredForced ctx t
       pure (Json.mkObj [("externals", .arr (r.map (fun n => Json.num (JsonNumber.fromNat n))).toArray)])
   | "parse_toks" =>
       let ts ← (← argArr j "toks").mapM tokOf
